@@ -113,7 +113,9 @@ func (s Shape) Source(finite bool) string {
 	var w string
 	switch {
 	case s.Waiting == "none" && !finite && s.Dest == "cmd":
-		w = fmt.Sprintf(`n++; if (n <= %d) { print "L" n%s; if (n == 1) vwait() } if (n == K) vcancel()`, s.Printed, s.redir())
+		// (these programs run without the instruction hook, several at a time: vtick() counts the iterations after the
+		// cancellation instead, and stops a run that does not stop)
+		w = fmt.Sprintf(`n++; if (n <= %d) { print "L" n%s; if (n == 1) vwait() } if (n == K) vcancel(); vtick()`, s.Printed, s.redir())
 	case s.Waiting == "none" && !finite:
 		w = fmt.Sprintf(`n++; if (n <= %d) print "L" n%s; if (n == K) vcancel()`, s.Printed, s.redir())
 	case s.Waiting == "none" && finite:
@@ -217,7 +219,11 @@ func (s Shape) Source(finite bool) string {
 			if finite {
 				sb.WriteString("(++n % 7 == 9) || (s += n % 7) < 0\n")
 			} else {
-				sb.WriteString("(++n == K ? vcancel() : 0) < 0\n")
+				if s.Dest == "cmd" {
+					sb.WriteString("(++n == K ? vcancel() : vtick()) < 0\n")
+				} else {
+					sb.WriteString("(++n == K ? vcancel() : 0) < 0\n")
+				}
 			}
 		} else {
 			sb.WriteString("}\n" + body + " < 0\n")
